@@ -106,3 +106,12 @@ Proof.
   rewrite E1, E2. split; [left; reflexivity|]. split; [vm_compute; discriminate|].
   split; [|reflexivity]. intros [X|[]]. discriminate.
 Qed.
+
+(* a close() that rejects its argument has no effect on the receiver at all *)
+Lemma rejected_close_is_noop s s' :
+  step true LCloseBad s = Some s' ->
+  s' = logr KClose EValueErr s /\ pump s' = pump s /\ ptask s' = ptask s /\ queue s' = queue s
+  /\ outst s' = outst s.
+Proof.
+  cbn. destruct (ctl s); [|discriminate]. intro H. injection H as <-. repeat split; reflexivity.
+Qed.
